@@ -386,12 +386,55 @@ def run_seqjoint(case):
     return out
 
 
+def run_norm(case):
+    """exact weights against the measured state's own probabilities and norm: the prefix is
+    executed alone to obtain the pre-measurement state, then prefix + measurement"""
+    out = {}
+    try:
+        cfg = dict(seed_sequence=case.get("seed", 0))
+        if case.get("cutoff") is not None:
+            cfg["cutoff"] = case["cutoff"]
+        cfg.update(case.get("config", {}))
+
+        def sim():
+            return simulator_class(case["sim"])(d=case["d"], config=pq.Config(**cfg))
+
+        pre = sim().execute(pq.Program(instructions=[build_instruction(s) for s in case["prefix"]]), shots=None)
+        if len(pre.branches) != 1 or pre.branches[0].state is None:
+            out["error"] = "prefix did not give one state"
+            return out
+        state = pre.branches[0].state
+        out["prefix_weight"] = float(pre.branches[0].frequency)
+        out["norm"] = float(np.real(state.norm))
+        gone = [m for s in case["prefix"] if s["k"] == "POST" for m in s["modes"]]
+        active = [m for m in range(case["d"]) if m not in gone]
+        pos = [active.index(m) for m in case["modes"]]
+        marg = {}
+        for vec, p in state.fock_probabilities_map.items():
+            key = tuple(int(vec[i]) for i in pos)
+            marg[key] = marg.get(key, 0.0) + float(np.real(p))
+        out["marginal"] = [[list(k), v] for k, v in sorted(marg.items())]
+        out["state_d"] = int(state.d)
+        full = pq.Program(instructions=[build_instruction(s) for s in case["prefix"]]
+                          + [build_instruction({"k": "PNM", "modes": case["modes"], "args": {}})])
+        res = sim().execute(full, shots=None)
+        w = {}
+        for b in res.branches:
+            key = tuple(int(v) for v in b.outcome)
+            w[key] = w.get(key, 0.0) + float(b.frequency)
+        out["weights"] = [[list(k), v] for k, v in sorted(w.items())]
+    except Exception as e:
+        out["error"] = "%s: %s" % (type(e).__name__, str(e)[:300])
+    return out
+
+
 def main():
     req = json.load(sys.stdin)
     out = {
         "cases": [run_case(c) for c in req.get("cases", [])],
         "proj": [run_proj(c) for c in req.get("proj", [])],
         "seqjoint": [run_seqjoint(c) for c in req.get("seqjoint", [])],
+        "norm": [run_norm(c) for c in req.get("norm", [])],
         "piquasso_file": pq.__file__,
     }
     print(json.dumps(out))
